@@ -354,6 +354,7 @@ def allowOf {F : Type} [FloatLike F] (ys : List Float) (steps rdepth : Nat) : Al
   match exactStats ys with
   | none => ⟨1.0 / 0.0, 1.0 / 0.0, ys.length, 0.0, 0.0⟩
   | some e =>
+    if e.n == 0 then ⟨1.0 / 0.0, 1.0 / 0.0, 0, 0.0, 0.0⟩ else
     let n := Float.ofNat e.n
     let c := (12.0 + 10.0 * Float.ofNat (rdepth + 1)) * u + 12.0 * Float.ofNat (steps + e.n + 2) * u * u
     let tolSum := 2.0 * c * e.sumAbsF + 16.0 * u * e.sumAbsF
@@ -369,7 +370,8 @@ def allowOf {F : Type} [FloatLike F] (ys : List Float) (steps rdepth : Nat) : Al
 
 /-- positional comparison of two query outputs of the implementation: integers exactly, floats
     within `tolStat` (statistics group) resp. `tolBound` (interval group) -/
-def cmpQuery (tolStat tolBound : Float) (fin bat : List String) : List String :=
+def cmpQuery (tolStats : List Float) (tolBound : Float) (fin bat : List String) : List String :=
+  let tolStat := tolStats.foldl (fun m x => if x > m then x else m) 0.0
   let fs := splitBar fin
   let bs := splitBar bat
   let isF (t : String) := t.startsWith "x" || t.startsWith "y"
@@ -384,9 +386,23 @@ def cmpQuery (tolStat tolBound : Float) (fin bat : List String) : List String :=
         let vx := val x; let vy := val y
         (vx.isNaN && vy.isNaN) || vx == vy || (vx - vy).abs ≤ tol
       else x == y
+  -- the statistics group: one tolerance per float token, in order
+  let cmpStats (a b : List String) : Bool :=
+    a.length == b.length &&
+    (Id.run do
+      let mut ts := tolStats
+      let mut ok := true
+      for (x, y) in a.zip b do
+        if isF x && isF y then
+          let t := ts.head?.getD tolStat
+          ts := ts.drop 1
+          let vx := val x; let vy := val y
+          if !((vx.isNaN && vy.isNaN) || vx == vy || (vx - vy).abs ≤ t) then ok := false
+        else if x != y then ok := false
+      return ok)
   match fs, bs with
   | s1 :: i1 :: _, s2 :: i2 :: _ =>
-    (if cmpGroup tolStat s1 s2 then [] else [s!"statistics-differ-from-batch(tol {tolStat})"]) ++
+    (if cmpStats s1 s2 then [] else [s!"statistics-differ-from-batch(tol {tolStat})"]) ++
     (if cmpGroup tolBound i1 i2 then [] else [s!"interval-differs-from-batch(tol {tolBound})"])
   | [i1], [i2] => if cmpGroup tolBound i1 i2 then [] else ["differs-from-batch"]
   | _, _ => ["malformed-query"]
@@ -565,19 +581,25 @@ def progGeneric {S : Type} {F : Type} [FloatLike F] (ops : AccOps S) (kind : Str
             let n := Float.ofNat a.n
             let hw := c * a.sdV / n.sqrt
             let tolB := a.mean + c * a.sd / n.sqrt + 32.0 * u * (a.meanV.abs + hw)
-            let tolS := fmax (a.mean) (a.sd) + 32.0 * u * (a.meanV.abs + a.sdV)
-            let (tolS, tolB) :=
+            let tolM := a.mean + 32.0 * u * a.meanV.abs
+            let tolSd := a.sd + 32.0 * u * a.sdV
+            let tolVar := 2.0 * a.sdV * tolSd + tolSd * tolSd + 64.0 * u * a.sdV * a.sdV
+            let tolS := fmax tolM tolSd
+            let (tolSs, tolB) :=
               match kind with
+              | "arith" => ([tolM, tolVar, tolSd, tolSd], tolB)
               | "geo" =>
                 -- exp amplifies absolute allowances into relative ones
                 let top := (a.meanV + hw).exp
-                ((tolS + 32.0 * u) * top * (1.0 + a.sdV), (tolB + 32.0 * u) * top)
+                let t := (tolS + 32.0 * u) * top * (1.0 + a.sdV)
+                ([t, t], (tolB + 32.0 * u) * top)
               | "harm" =>
                 let lowb := fmax (a.meanV.abs - hw) (Float.scaleB 1.0 (-1000))
                 let m2 := 1.0 / (a.meanV * a.meanV)
-                ((tolS * m2 * (1.0 + a.sdV / a.meanV.abs)) + 32.0 * u / a.meanV.abs, tolB / (lowb * lowb) * 2.0 + 32.0 * u / lowb)
-              | _ => (tolS, tolB)
-            cmpQuery tolS tolB (flat (lastQ.take 2)) (flat (post.take 2))
+                let t := (tolS * m2 * (1.0 + a.sdV / a.meanV.abs)) + 32.0 * u / a.meanV.abs
+                ([t, t], tolB / (lowb * lowb) * 2.0 + 32.0 * u / lowb)
+              | _ => ([tolM, tolSd], tolB)
+            cmpQuery tolSs tolB (flat (lastQ.take 2)) (flat (post.take 2))
           | [a, b] =>
             let na := Float.ofNat a.n; let nb := Float.ofNat b.n
             let se := (a.sdV * a.sdV / na + b.sdV * b.sdV / nb).sqrt
@@ -589,7 +611,7 @@ def progGeneric {S : Type} {F : Type} [FloatLike F] (ops : AccOps S) (kind : Str
               | [c1, c2] => (c1 - c2).abs
               | _ => 0.0
             let tolB := a.mean + b.mean + c * tolSe + dc * se + 64.0 * u * (a.meanV.abs + b.meanV.abs + c * se)
-            cmpQuery (fmax a.mean b.mean + 32.0 * u * (a.meanV.abs + b.meanV.abs)) tolB (flat lastQ) (flat post)
+            cmpQuery [a.mean + 32.0 * u * a.meanV.abs, b.mean + 32.0 * u * b.meanV.abs] tolB (flat lastQ) (flat post)
           | _ => []
       { model := model, prop := cs } }
 
